@@ -11,8 +11,11 @@ RULE = ("(i) structural comparison of the two *loaded* parsers (fresh Lark build
         "options vs the shipped standalone module): terminals, rules, %ignore and a complete bisimulation of the LALR "
         "action/goto tables from the paired start states; (ii) differential parsing of grammar-derived accepted "
         "strings, token-level mutations and random strings over the grammar's alphabet for both start symbols, with a "
-        "recording table on the shipped parser that counts which (state, symbol) entries were exercised.  distinct = "
-        "input string (non-trivial: >= 2 tokens) and table entries")
+        "recording table on the shipped parser that counts which (state, symbol) entries were exercised; (iii) the "
+        "shipped engine's run-time state: every parse is checked to start from its own empty stacks (hook on "
+        "_Parser.parse_from_state), and two or three parses overlapped at line granularity inside the LALR engine by the "
+        "deterministic thread scheduler must each give the outcome the text has when parsed alone.  distinct = "
+        "input string (non-trivial: >= 2 tokens), table entries and interleavings")
 ASSUMPTIONS = [
     "the reference parser is built by the Lark in /venv (1.3.1) from src/measured/measured.lark with parser='lalr', "
     "start=['unit','quantity'] as in the Makefile rule; the shipped module embeds Lark 1.1.2's runtime",
@@ -157,6 +160,91 @@ def run(ctx):
         total_entries += len(d)
     gen = textgen.TextGen(ctx.rng)
     n = ctx.scale(100000, 5_000_000)
+    accepted = rejected = 0
+
+    # every parse of the shipped engine starts from its own, empty stacks: whatever an earlier (or a
+    # concurrent) parse left behind is not part of the language the grammar defines
+    orig_pfs = _parser._Parser.parse_from_state
+    live = {}
+
+    def monitored_parse_from_state(self, state):
+        ctx.count("engine_start_states_checked")
+        if state.value_stack or state.state_stack != [state.parse_conf.start_state]:
+            ctx.violation("C16:parse-starts-from-leftover-state", f"a parse of the shipped parser starts with value stack of {len(state.value_stack)} "
+                          f"entries and state stack {state.state_stack[:5]} instead of empty stacks", {})
+        if any(state.value_stack is v or state.state_stack is st for v, st in live.values()):
+            ctx.violation("C16:parses-share-a-stack", "two parses in progress use the same stack object", {})
+        live[id(state)] = (state.value_stack, state.state_stack)
+        try:
+            return orig_pfs(self, state)
+        finally:
+            live.pop(id(state), None)
+
+    _parser._Parser.parse_from_state = monitored_parse_from_state
+    try:
+        _differential(ctx, lark, _parser, fresh, shipped, gen, n, log, total_entries)
+        if ctx.shard == ctx.nshards - 1:
+            _overlapping(ctx, _parser, shipped, gen)
+    finally:
+        _parser._Parser.parse_from_state = orig_pfs
+
+
+def _overlapping(ctx, _parser, shipped, gen):
+    """the same inputs while another parse is in progress: two and three threads, each parsing one text with
+    the shipped parser, interleaved at line granularity inside the LALR engine by the deterministic scheduler;
+    every outcome must be the one the same text has when parsed alone (which part (ii) ties to the grammar)"""
+    from .. import sched
+
+    rng = ctx.rng
+    texts = []
+    while len(texts) < 60:
+        t, kind = gen.any_text()
+        if 0 < len(t) < 40:
+            texts.append(t)
+    texts += ["m/s", "kg", "5 m", "m^2*s^-1", "1/s", "3.5 km/h", "m//s", "kg m"]
+
+    def alone(text, start):
+        try:
+            return ("ok", tree_shape(shipped.parse(text, start=start)))
+        except _parser.LarkError:
+            return ("reject",)
+        except Exception as e:
+            return ("crash", type(e).__name__)
+
+    traced = {"ParserState.feed_token", "_Parser.parse_from_state", "monitored_parse_from_state"}
+    seen = set()
+    trials = 40 if ctx.tier == "quick" else 1500
+    for trial in range(trials):
+        k = rng.choice([2, 2, 3])
+        jobs = [(rng.choice(texts), rng.choice(["unit", "quantity"])) for _ in range(k)]
+        want = [alone(t, st) for t, st in jobs]
+
+        def make(_i, jobs=jobs):
+            return [(lambda t=t, st=st: alone(t, st)) for t, st in jobs]
+
+        def check(run, _i, jobs=jobs, want=want):
+            ctx.count("evaluations")
+            ctx.count("overlapping_parses/executions")
+            ctx.distinct(("overlap", run.trace_hash()), run.preemptions() >= 1)
+            if run.watchdog_fired:
+                ctx.count("watchdog_fired")
+                return
+            if run.errors or len(run.results) < len(jobs):
+                ctx.count("overlapping_parses/incomplete")
+                return
+            for tid, ((text, start), w) in enumerate(zip(jobs, want)):
+                got = run.results.get(tid)
+                if got != w:
+                    ctx.violation("C16:parse-differs-while-another-parse-is-in-progress",
+                                  f"start={start} text={text!r}: alone {str(w)[:150]}, overlapped with {[j[0] for j in jobs]} it gives {str(got)[:150]}",
+                                  {"jobs": jobs, "schedule": [c for c, _, _ in run.choices][:200]})
+        sched.random_schedules(make, traced, _parser.__file__, check, rng, 3 if ctx.tier == "quick" else 6, seen)
+    ctx.count("overlapping_parses/distinct_interleavings", len(seen))
+    if ctx.get("overlapping_parses/executions") == 0:
+        ctx.not_reached("no overlapping parse ran")
+
+
+def _differential(ctx, lark, _parser, fresh, shipped, gen, n, log, total_entries):
     accepted = rejected = 0
     for i in range(n):
         text, kind = gen.any_text()
